@@ -202,9 +202,18 @@ def function_source(cfg: dict, mm: int, j: int, fault: dict | None) -> tuple[str
     style = cfg["styles"][(mm, j)]
     local = not style.startswith("foreign")
     stmts = list(cfg["bodies"][(mm, j)])
+    if fault and fault.get("nested_compile") and fault["fn"] == (mm, j):
+        # the definition compiled from inside a trace must not lead back to its caller
+        # (unbounded mutual recursion of whole compilations is a workload bug, not a fault)
+        import re as _re
+        stmts = ["a = x" if _re.search(r"\b(ct\d+_\d+|rg\d+)\(", st) else st for st in stmts]
     if fault and fault.get("caller") == (mm, j):
         cm, cj = fault["fn"]
         call = f"ct{cm}_{cj}(x)" if cm == mm and local else f"M{cm}.ct{cm}_{cj}(x)"
+        if fault.get("nested_compile"):
+            # the traced body itself invokes the compiler on another comptime definition:
+            # a compilation nested inside a trace (re-entrant engine, nested tracing state)
+            call = call[:-3] + "." + fault["nested_compile"] + "()"
         if fault.get("catch"):
             # the traced body catches the failure of the nested comptime call and goes on
             stmts.insert(0, f"try:\n        cc = {call}\n    except BaseException:\n        cc = x")
@@ -340,6 +349,14 @@ def run_case(ch: Choices, params: dict) -> dict:
                            "label": "callee_fails_caller_catches"}
                           for kk in ("raise_user_exception", "leak_qubit", "keyboard_interrupt_like")
                           for p in (0, len(cfg["bodies"][callee]))]
+                for api in ("compile_function", "check"):
+                    plans.append({"fn": callee, "kind": "none_", "pos": 0, "caller": target,
+                                  "nested_compile": api, "label": "nested_compile_ok"})
+                    plans += [{"fn": callee, "kind": kk, "pos": p, "caller": target, "catch": c,
+                               "nested_compile": api,
+                               "label": "nested_compile_fails" + ("_caught" if c else "")}
+                              for kk in ("raise_user_exception", "wrong_return_type")
+                              for p in (0, len(cfg["bodies"][callee])) for c in (False, True)]
         else:
             plans.append({"fn": target, "kind": k, "pos": 0})
     n_hist_ops = ch.rng_int(1, 4, "n_ops")
